@@ -846,7 +846,32 @@ def replay(path):
     try:
         op = inp["op"]
         why = None
-        if op in ("encrypt-and-generate", "cli encrypt-and-generate"):
+        if "successive runs into one output directory" in op and "history" in inp:
+            via = "cli" if op.startswith("cli") else "lib"
+            key = bytes.fromhex(inp["key_hex"])
+            d = fresh_dir(tmp, "reuse")
+            kd = write_key(d, key)
+            out = fresh_dir(d, "out")
+            fw = os.path.join(d, "fw.bin")
+            for st in inp["history"]:
+                pt = mkpt(st["plaintext_len"], st["plaintext_seed"])
+                with open(fw, "wb") as fh:
+                    fh.write(pt)
+                if via == "lib":
+                    try:
+                        _cmd().main(encrypt_subcommand="encrypt-and-generate", encrypt_script=enc_script(), firmware=fw, key_name=KEY_NAME, key_id=st["key_id"],
+                                    context=kd, hash_alg=st["hash_alg"], kw_alg="direct", kms_script=kms_script(), output_dir=out)
+                    finally:
+                        _clean_modules()
+                else:
+                    cli(["encrypt", "encrypt-and-generate", "--firmware", "fw.bin", "--key-name", KEY_NAME, "--key-id", hex(st["key_id"]), "--context", kd,
+                         "--output-dir", out, "--hash-alg", st["hash_alg"], "--kms-script", kms_script(), "--encrypt-script", enc_script()], d)
+            last = inp["history"][-1]
+            why = oracle_eag(read_dir(out), key, mkpt(last["plaintext_len"], last["plaintext_seed"]), last["key_id"], last["hash_alg"])
+        elif "into the output directory of earlier" in op:
+            print("the failing run is part of a history (successive runs into one output directory): re-running the histories")
+            return run("quick", rec.get("seed", 0))
+        elif op in ("encrypt-and-generate", "cli encrypt-and-generate"):
             key, pt = bytes.fromhex(inp["key_hex"]), mkpt(inp["plaintext_len"], inp["plaintext_seed"])
             kw = inp.get("kw_alg", "direct")
             if op.startswith("cli"):
